@@ -81,12 +81,31 @@ type Event struct {
 	Pkt   int     `json:"pkt,omitempty"`
 	Timer int     `json:"timer,omitempty"`
 	Byz   *ByzMsg `json:"byz,omitempty"`
+	Late  *Late   `json:"late,omitempty"`
+}
+
+// Late: the rest of a commitBlock whose decision (Proposer, ForEmpty) and pre-check were made
+// earlier by another loop of the node (event kind "late"; "peek" with Timer 1 or 2 makes the decision
+// of the endorse / empty-endorse timeout handler now, read-only, for a later "late").
+type Late struct {
+	Proposer uint32 `json:"proposer"`
+	ForEmpty bool   `json:"for_empty"`
+}
+
+// MarkCall is one call on the real BlockPool of a fresh node (pool-level schedules): add =
+// newBlockProposal, endorse = setProposalEndorsed, commit = setProposalCommitted, for the proposal
+// of Proposer (0 = the leader's, 1 = the second proposer's).
+type MarkCall struct {
+	Op       string `json:"op"`
+	Proposer uint32 `json:"proposer"`
+	ForEmpty bool   `json:"for_empty"`
 }
 
 type Schedule struct {
 	Label  string  `json:"label"`
 	Params Params  `json:"params"`
 	Events []Event `json:"events"`
+	Marks  []MarkCall `json:"marks,omitempty"`
 }
 
 // ---------- model-side terms ----------
@@ -126,6 +145,7 @@ type world struct {
 	nver    int
 	vcache  map[string]bool
 	prev    *vbft.Block
+	markProps [2][]byte // the two proposals of the pool-level schedules
 }
 
 const maxPeers = 10
@@ -195,6 +215,7 @@ type netw struct {
 	bogus   int
 	seenSig map[string][]byte // "signer/p/k/e" -> bytes of a signature seen on the network
 	sigCache map[string][]byte
+	intent   map[uint32]*Late
 	trace   map[uint32][]nodeObs
 	signed  map[uint32][]mBlk // ground truth: blocks signed by each honest node's key (from its messages)
 	errs    []string
@@ -209,13 +230,16 @@ func has(l []uint32, x uint32) bool {
 	return false
 }
 
-func newNet(w *world, p Params) (*netw, error) {
+func newNet(w *world, p Params) (*netw, error) { return newNetOnly(w, p, nil) }
+
+// newNetOnly builds only the nodes listed in only (nil: all).
+func newNetOnly(w *world, p Params, only []uint32) (*netw, error) {
 	if len(p.Peers) > maxPeers {
 		return nil, fmt.Errorf("too many peers")
 	}
 	nw := &netw{w: w, p: p, pos: map[uint32]int{}, isByz: map[uint32]bool{}, nodes: map[uint32]*vbft.VerifC34Node{},
 		blocks: map[common.Uint256]mBlk{}, hashes: map[mBlk]common.Uint256{}, props: map[string][]byte{}, nprops: map[uint32]int{},
-		seenSig: map[string][]byte{}, sigCache: map[string][]byte{}, trace: map[uint32][]nodeObs{}, signed: map[uint32][]mBlk{}}
+		seenSig: map[string][]byte{}, sigCache: map[string][]byte{}, intent: map[uint32]*Late{}, trace: map[uint32][]nodeObs{}, signed: map[uint32][]mBlk{}}
 	var pubs []keypair.PublicKey
 	for i, idx := range p.Peers {
 		nw.pos[idx] = i
@@ -225,6 +249,9 @@ func newNet(w *world, p Params) (*netw, error) {
 		nw.isByz[b] = true
 	}
 	for i, idx := range p.Peers {
+		if only != nil && !has(only, idx) {
+			continue
+		}
 		nd, err := vbft.VerifC34NewNode(w.accts[i], idx, p.N, p.C, p.Peers, pubs, p.Proposers, p.Endorsers, p.Committers, blkNum, w.prev)
 		if err != nil {
 			return nil, err
